@@ -542,7 +542,9 @@ def run_check(pid, tier):
     t0 = time.time()
     mod = load_prop(pid)
     sut()
-    cfg = mod.TIERS[tier]
+    cfg = dict(mod.TIERS[tier])
+    if os.environ.get("VERIF_WALL_CAP"):
+        cfg["wall_cap"] = float(os.environ["VERIF_WALL_CAP"])  # shorter soak of the same tier (development aid)
     known, _fixed = load_findings()
     print(f"[{pid}] tier={tier} VERIF_SEED={batch_seed()} repo={REPO} runs={cfg['runs']}", flush=True)
 
